@@ -18,11 +18,25 @@ NOT_APPLICABLE = [
     {"property_id": "C20", "reason": "iptables rule text is a pure function of the capture configuration; " + PURE},
 ]
 # properties planned in DESIGN.md whose check is not built yet (removed from here as they land)
-for _p, _sec in [("C03", "4.3"), ("C04", "4.4"), ("C05", "4.5"), ("C06", "4.6"), ("C11", "4.7"), 
+for _p, _sec in [("C04", "4.4"), ("C05", "4.5"), ("C06", "4.6"), ("C11", "4.7"), 
                  ("C15", "4.9"), ("C16", "4.10"), ("C18", "4.12")]:
     NOT_APPLICABLE.append({"property_id": _p, "reason": "not claimed yet: simulation target (DESIGN.md section %s) whose check is still being built; not a not-applicable verdict" % _sec})
 
 PROPERTIES = {
+    "C03": {
+        "design_ref": "4.3",
+        "technique": "deterministic simulation of the whole control plane with paired clients (one state-of-the-world, one delta, identical node) on the same instance and history; equality of held sets at checkpoints",
+        "level_text": "seeded search over config histories x debounce batchings x delivery interleavings; the delta twin applies every resources/removed_resources and must hold exactly what the SotW twin holds (reachable EDS/RDS) at every checkpoint; sampling, not proof",
+        "level_note": "trusted: testing/synctest, FakeDiscoveryServer assembly, the two client models (independent protocol halves: an error in one of them shows up as a false alarm, not as a miss); ztunnel types are not covered yet (no SotW form; planned against the fresh wildcard snapshot)",
+        "rule": "each run = 1-2 twin pairs drawn from 5 proxy identities, 2-15 mutations over up to 13 kinds, random gaps and partial deliveries, client-initiated EDS unsubscribe+resubscribe; distinct = distinct schedule signature; non-trivial = the delta twin received at least one removed_resources entry",
+        "real": WIS_REAL, "stub": WIS_STUB,
+        "assumptions": ["ECDS is compared only when both twins subscribe to it (delta never removes ECDS by design)"],
+        "subchecks": [
+            {"check": "c03", "what": "delta twin == SotW twin at checkpoints", "nontrivial": "delta twin saw removed_resources",
+             "budget": {"quick": 60, "thorough": 900}, "seeds": {"quick": 1, "thorough": 3}, "chunk": 20, "replay_attempts": 3,
+             "must_probe": ["delta_removed_resources", "client_resubscribe", "checkpoints"]},
+        ],
+    },
     "C17": {
         "design_ref": "4.11",
         "technique": "deterministic simulation: replica-divergence search - several real control-plane instances in one virtual-time bubble receive the same seeded object set in independently permuted insertion orders; identical clients; byte and order equality, plus repeated forced regeneration inside one instance",
